@@ -113,6 +113,7 @@ type Engine struct {
 	invokeTrace []string
 	topRets     []retRec
 	tmplFuncs   map[int]*Term
+	callHist    map[string]*Term
 	inputs      []*inputNode
 	byteRefs    map[int]bool
 	files       []*ContractFile
@@ -138,6 +139,7 @@ func newEngine(prog *ssa.Program, fset *token.FileSet) *Engine {
 	}
 	e.declComp(allocComp, IntS)
 	e.tmplFuncs = map[int]*Term{}
+	e.callHist = map[string]*Term{}
 	e.byteRefs = map[int]bool{}
 	registerModels(e)
 	for _, f := range extraModels {
